@@ -104,7 +104,11 @@ def main(argv=None):
                 fn_rows.append(dict(unit=name, function=short, mode=st.get('mode'), solver_ms=st.get('time_ms'), rlimit=st.get('rlimit'), discharged=bool(st.get('success'))))
         unknown = [k_ for k_ in g.uncontracted if k_ not in expected_fns.get(name, [])]
         for f in r.failures:
-            if pid in f.props:
+            md0 = r.modes.get(f.owner)
+            # a function that is no longer verified with its hints (contract-only / external) or that was restructured establishes nothing: it is outside the
+            # verifier's reach for every property it carries, the safety-only ones included (its failures need not be safety failures for that)
+            wide = (md0 in ('contract_only', 'external') or f.owner in g.reshaped or f.owner in g.new_constructs or f.owner in g.renamed) and pid in g.props_of(f.owner)
+            if pid in f.props or wide:
                 md = r.modes.get(f.owner)
                 if unknown:
                     soft.append((name, f.owner, 'the unit contains functions unknown to the overlay (%s); failed: %s' % (', '.join(unknown[:4]), f.ident()[:120])))
@@ -119,7 +123,7 @@ def main(argv=None):
             if st.get('success') is False and pid in g.props_of(short):
                 if not any(f.owner == short for (_, f) in failures) and not any(s_[1] == short for s_ in soft):
                     for f in r.failures:
-                        if f.owner == short and pid in g.props_of(short, f):
+                        if f.owner == short and not f.label and pid in g.props_of(short, f):      # a labelled clause names its own properties
                             md = r.modes.get(f.owner)
                             if md in ('contract_only', 'external'): soft.append((name, f.owner, 'contract-only verification of the rewritten function failed: ' + f.ident()))
                             else: failures.append((name, f))
